@@ -9,6 +9,7 @@ import (
 	"fmt"
 	"os"
 	"sort"
+	"strings"
 	"sync"
 
 	tls "github.com/refraction-networking/utls"
@@ -27,6 +28,9 @@ type scenario struct {
 	variant string
 	maxVers uint16
 	pick    func(w *hs.WireHello, s *tls.VerifServerScript, rng func(int) int) (val string, unoffered bool, ok bool)
+	// stale (instead of pick): for clients whose hello was re-built after a change; prev = the wire hello before the
+	// change. Selects a value the EARLIER hello offered and the one on the wire does not (always unoffered).
+	stale func(w, prev *hs.WireHello, s *tls.VerifServerScript) (val string, ok bool)
 }
 
 func otherGREASE(used []uint16, rng func(int) int) uint16 {
@@ -70,7 +74,7 @@ func scenarios() []scenario {
 	u16 := func(v uint16) string { return fmt.Sprintf("0x%04x", v) }
 	var sc []scenario
 	add := func(kind, variant string, maxVers uint16, pick func(w *hs.WireHello, s *tls.VerifServerScript, rng func(int) int) (string, bool, bool)) {
-		sc = append(sc, scenario{kind, variant, maxVers, pick})
+		sc = append(sc, scenario{kind: kind, variant: variant, maxVers: maxVers, pick: pick})
 	}
 	V13, V12 := uint16(tls.VersionTLS13), uint16(tls.VersionTLS12)
 
@@ -281,11 +285,150 @@ func scenarios() []scenario {
 		s.SKXCurve = tls.CurveID(otherGREASE(w.SupportedGroups, rng))
 		return u16(uint16(s.SKXCurve)), true, true
 	})
+
+	// ---- the same selections on the ServerHello that FOLLOWS a well-formed HelloRetryRequest ----
+	// (checkServerHelloOrHRR runs a second time there: handshake_client_tls13.go:498)
+	hrrFirst := func(w *hs.WireHello, s *tls.VerifServerScript) {
+		s.ForceHRR, s.OverridesAfterHRROnly = true, true
+		for _, g := range realCurves12 {
+			if hs.ContainsU16(w.SupportedGroups, g) && !hs.ContainsU16(w.KeyShareGroups, g) {
+				s.HRRGroup = tls.CurveID(g)
+				return
+			}
+		}
+		s.HRRCookie = []byte("verif-cookie") // every real group already has a share: cookie-only HRR
+	}
+	add("honest13-afterhrr", "offered", V13, func(w *hs.WireHello, s *tls.VerifServerScript, _ func(int) int) (string, bool, bool) {
+		hrrFirst(w, s)
+		return "-", false, offers13(w)
+	})
+	add("sessionid13-afterhrr", "flipped", V13, func(w *hs.WireHello, s *tls.VerifServerScript, _ func(int) int) (string, bool, bool) {
+		hrrFirst(w, s)
+		sid := append([]byte{}, w.SessionID...)
+		if len(sid) == 0 {
+			sid = []byte{1, 2, 3, 4}
+		} else {
+			sid[0] ^= 0x01
+		}
+		s.SessionID = sid
+		return "flipped", true, offers13(w)
+	})
+	add("sessionid13-afterhrr", "empty", V13, func(w *hs.WireHello, s *tls.VerifServerScript, _ func(int) int) (string, bool, bool) {
+		hrrFirst(w, s)
+		s.SessionID = []byte{}
+		return "empty", true, offers13(w) && len(w.SessionID) > 0
+	})
+	add("compression13-afterhrr", "deflate", V13, func(w *hs.WireHello, s *tls.VerifServerScript, _ func(int) int) (string, bool, bool) {
+		hrrFirst(w, s)
+		s.CompressionMethod = 1
+		return "1", true, offers13(w) && len(w.CompressionMethods) == 1 && w.CompressionMethods[0] == 0
+	})
+	add("suite13-afterhrr", "grease", V13, func(w *hs.WireHello, s *tls.VerifServerScript, rng func(int) int) (string, bool, bool) {
+		hrrFirst(w, s)
+		s.Suite = otherGREASE(w.CipherSuites, rng)
+		return u16(s.Suite), true, offers13(w)
+	})
+	add("suite13-afterhrr", "changed", V13, func(w *hs.WireHello, s *tls.VerifServerScript, _ func(int) int) (string, bool, bool) {
+		// both suites offered, but the ServerHello names another one than the HRR did (expected abort; no oracle: nothing unoffered)
+		hrrFirst(w, s)
+		var offered []uint16
+		for _, id := range real13 {
+			if hs.ContainsU16(w.CipherSuites, id) {
+				offered = append(offered, id)
+			}
+		}
+		if len(offered) < 2 {
+			return "", false, false
+		}
+		s.HRRSuite, s.Suite = offered[0], offered[1]
+		return u16(offered[0]) + "->" + u16(offered[1]), false, offers13(w)
+	})
+	add("group13-afterhrr", "real", V13, func(w *hs.WireHello, s *tls.VerifServerScript, _ func(int) int) (string, bool, bool) {
+		hrrFirst(w, s)
+		used := append([]uint16{uint16(s.HRRGroup)}, w.KeyShareGroups...)
+		g, ok := firstNotIn([]uint16{uint16(tls.CurveP521), uint16(tls.CurveP384), uint16(tls.CurveP256), uint16(tls.X25519)}, used)
+		if s.HRRGroup == 0 || !ok {
+			return "", false, false // after a cookie-only HRR the shares are unchanged: covered by group13/real
+		}
+		s.Group = tls.CurveID(g)
+		return u16(g), true, offers13(w)
+	})
+	add("group13-afterhrr", "grease", V13, func(w *hs.WireHello, s *tls.VerifServerScript, rng func(int) int) (string, bool, bool) {
+		hrrFirst(w, s)
+		s.Group = tls.CurveID(otherGREASE(append(append([]uint16{}, w.KeyShareGroups...), w.SupportedGroups...), rng))
+		return u16(uint16(s.Group)), true, offers13(w)
+	})
+
+	// ---- stale selections: offered by the hello BEFORE a re-preset / an edit of uc.Extensions, absent from the wire ----
+	addStale := func(kind string, maxVers uint16, f func(w, prev *hs.WireHello, s *tls.VerifServerScript) (string, bool)) {
+		sc = append(sc, scenario{kind: kind, variant: "stale", maxVers: maxVers, stale: f})
+	}
+	diff16 := func(prev, cur, impl []uint16) (uint16, bool) {
+		for _, v := range prev {
+			if !hs.ContainsU16(cur, v) && (impl == nil || hs.ContainsU16(impl, v)) {
+				return v, true
+			}
+		}
+		return 0, false
+	}
+	addStale("suite13", V13, func(w, prev *hs.WireHello, s *tls.VerifServerScript) (string, bool) {
+		v, ok := diff16(prev.CipherSuites, w.CipherSuites, real13)
+		s.Suite = v
+		return u16(v), ok && offers13(w)
+	})
+	addStale("group13", V13, func(w, prev *hs.WireHello, s *tls.VerifServerScript) (string, bool) {
+		v, ok := diff16(prev.KeyShareGroups, w.KeyShareGroups, realGroups)
+		s.Group = tls.CurveID(v)
+		return u16(v), ok && offers13(w)
+	})
+	addStale("hrrgroup", V13, func(w, prev *hs.WireHello, s *tls.VerifServerScript) (string, bool) {
+		v, ok := diff16(prev.SupportedGroups, w.SupportedGroups, realCurves12)
+		s.HRRGroup = tls.CurveID(v)
+		return u16(v), ok && offers13(w) && !hs.ContainsU16(w.KeyShareGroups, v)
+	})
+	staleALPN := func(w, prev *hs.WireHello, s *tls.VerifServerScript) (string, bool) {
+		for _, a := range prev.ALPN {
+			if !hs.ContainsStr(w.ALPN, a) {
+				s.ALPN = a
+				return a, true
+			}
+		}
+		return "", false
+	}
+	addStale("alpn13", V13, func(w, prev *hs.WireHello, s *tls.VerifServerScript) (string, bool) {
+		v, ok := staleALPN(w, prev, s)
+		return v, ok && offers13(w)
+	})
+	addStale("alpn12", V12, staleALPN)
+	addStale("certcomp", V13, func(w, prev *hs.WireHello, s *tls.VerifServerScript) (string, bool) {
+		v, ok := diff16(prev.CertCompressionAlgs, w.CertCompressionAlgs, []uint16{1, 2, 3})
+		s.CertCompression = v
+		return u16(v), ok && offers13(w)
+	})
+	addStale("suite12", V12, func(w, prev *hs.WireHello, s *tls.VerifServerScript) (string, bool) {
+		v, ok := diff16(prev.CipherSuites, w.CipherSuites, ecdhe12)
+		s.Suite = v
+		return u16(v), ok
+	})
+	addStale("curve12", V12, func(w, prev *hs.WireHello, s *tls.VerifServerScript) (string, bool) {
+		v, ok := diff16(prev.SupportedGroups, w.SupportedGroups, realCurves12)
+		s.SKXCurve = tls.CurveID(v)
+		return u16(v), ok
+	})
 	return sc
 }
 
+// client: who connects and what the caller did to the UConn before the handshake.
+type client struct {
+	name string
+	id   tls.ClientHelloID
+	// hooks (optional) returns, for ONE connection, the callbacks handed to hs.Run and a getter for the wire hello of
+	// the state before the last change (nil when nothing was re-built)
+	hooks func() (prepare, afterBuild func(*tls.UConn) error, prev func() *hs.WireHello)
+}
+
 type outcome struct {
-	pr      hs.Parrot
+	cl      client
 	sc      scenario
 	val     string
 	unoff   bool
@@ -294,58 +437,201 @@ type outcome struct {
 	script  *tls.VerifServerScript
 }
 
-func runOne(p *hs.PKI, pr hs.Parrot, sc scenario, seed int64) *outcome {
-	o := &outcome{pr: pr, sc: sc}
+func runOne(p *hs.PKI, cl client, sc scenario, seed int64) *outcome {
+	o := &outcome{cl: cl, sc: sc}
 	rng := vh.NewRand(seed)
 	script := &tls.VerifServerScript{}
+	var prepare, afterBuild func(*tls.UConn) error
+	prev := func() *hs.WireHello { return nil }
+	if cl.hooks != nil {
+		prepare, afterBuild, prev = cl.hooks()
+	}
 	script.OnClientHello = func(raw []byte) {
 		w, err := hs.ParseClientHello(raw)
 		if err != nil {
+			return
+		}
+		if sc.stale != nil {
+			if pw := prev(); pw != nil {
+				o.val, o.applies = sc.stale(w, pw, script)
+				o.unoff = true
+			}
 			return
 		}
 		o.val, o.unoff, o.applies = sc.pick(w, script, rng.Intn)
 	}
 	scfg := p.ServerConfig("h2", "http/1.1")
 	scfg.MaxVersion = sc.maxVers
-	ccfg := p.ClientConfig()
 	o.script = script
-	o.res = hs.Run(hs.Opts{ID: pr.ID, ClientCfg: ccfg, ServerCfg: scfg, Script: script})
+	o.res = hs.Run(hs.Opts{ID: cl.id, ClientCfg: p.ClientConfig(), ServerCfg: scfg, Script: script, Prepare: prepare, AfterBuild: afterBuild})
 	return o
+}
+
+func rawHello(uc *tls.UConn) *hs.WireHello {
+	w, err := hs.ParseClientHello(uc.HandshakeState.Hello.Raw)
+	if err != nil {
+		return nil
+	}
+	return w
+}
+
+// represet: one HelloCustom UConn: ApplyPreset(a) -> BuildHandshakeStateWithoutSession -> ApplyPreset(b) -> Handshake.
+func represet(a, b hs.Parrot) client {
+	return client{name: "represet:" + a.Name + "->" + b.Name, id: tls.HelloCustom, hooks: func() (func(*tls.UConn) error, func(*tls.UConn) error, func() *hs.WireHello) {
+		var pw *hs.WireHello
+		prepare := func(uc *tls.UConn) error {
+			sa, err := tls.UTLSIdToSpec(a.ID)
+			if err != nil {
+				return err
+			}
+			if err := uc.ApplyPreset(&sa); err != nil {
+				return err
+			}
+			if err := uc.BuildHandshakeStateWithoutSession(); err != nil {
+				return err
+			}
+			pw = rawHello(uc)
+			sb, err := tls.UTLSIdToSpec(b.ID)
+			if err != nil {
+				return err
+			}
+			return uc.ApplyPreset(&sb)
+		}
+		return prepare, nil, func() *hs.WireHello { return pw }
+	}}
+}
+
+// edited: a predefined parrot whose uc.Extensions / Hello the caller changes after BuildHandshakeState.
+func edited(pr hs.Parrot, what string) client {
+	return client{name: "edit:" + pr.Name + ":" + what, id: pr.ID, hooks: func() (func(*tls.UConn) error, func(*tls.UConn) error, func() *hs.WireHello) {
+		var pw *hs.WireHello
+		after := func(uc *tls.UConn) error {
+			pw = rawHello(uc)
+			var exts []tls.TLSExtension
+			for _, e := range uc.Extensions {
+				switch x := e.(type) {
+				case *tls.UtlsCompressCertExtension:
+					if what == "drop-certcomp" {
+						continue
+					}
+				case *tls.ALPNExtension:
+					if what == "drop-alpn" {
+						continue
+					}
+				case *tls.KeyShareExtension:
+					if what == "drop-keyshare" && len(x.KeyShares) > 1 {
+						// keep everything up to and including the first real share
+						for i, ks := range x.KeyShares {
+							if !hs.IsGREASE(uint16(ks.Group)) {
+								x.KeyShares = x.KeyShares[:i+1]
+								break
+							}
+						}
+					}
+				case *tls.SupportedCurvesExtension:
+					if what == "drop-group" && len(x.Curves) > 2 {
+						x.Curves = x.Curves[:len(x.Curves)-1]
+					}
+				}
+				exts = append(exts, e)
+			}
+			uc.Extensions = exts
+			if what == "drop-suite" {
+				var cs []uint16
+				for _, id := range uc.HandshakeState.Hello.CipherSuites {
+					if id == tls.TLS_AES_256_GCM_SHA384 || id == tls.TLS_ECDHE_RSA_WITH_AES_128_GCM_SHA256 || id == tls.TLS_ECDHE_ECDSA_WITH_AES_128_GCM_SHA256 {
+						continue
+					}
+					cs = append(cs, id)
+				}
+				uc.HandshakeState.Hello.CipherSuites = cs
+			}
+			return nil
+		}
+		return nil, after, func() *hs.WireHello { return pw }
+	}}
+}
+
+func must(name string) hs.Parrot {
+	pr, _ := hs.ParrotByName(name)
+	return pr
+}
+
+func sequenceClients(quick bool) []client {
+	cls := []client{
+		represet(must("Chrome_120"), must("Firefox_105")),
+		represet(must("Chrome_133"), must("Safari_16_0")),
+		represet(must("Firefox_120"), must("Chrome_58")),
+		represet(must("Firefox_105"), must("Chrome_120")),
+	}
+	bases := []string{"Chrome_120", "Firefox_120"}
+	if !quick {
+		bases = []string{"Chrome_120", "Firefox_120", "Chrome_133", "Safari_16_0", "Edge_106", "IOS_14", "Firefox_105", "Chrome_100_PSK"}
+		cls = append(cls, represet(must("Edge_106"), must("IOS_14")), represet(must("Chrome_131"), must("Firefox_65")), represet(must("Safari_16_0"), must("Chrome_133")))
+	}
+	for _, b := range bases {
+		for _, what := range []string{"drop-certcomp", "drop-alpn", "drop-keyshare", "drop-group", "drop-suite"} {
+			cls = append(cls, edited(must(b), what))
+		}
+	}
+	return cls
 }
 
 func run(c *vh.Ctx) {
 	p := hs.SharedPKI()
-	parrots := hs.Parrots()
-	if c.Tier != "quick" {
+	quick := c.Tier == "quick"
+	var clients []client
+	for _, pr := range hs.Parrots() {
+		clients = append(clients, client{name: pr.Name, id: pr.ID})
+	}
+	clients = append(clients, client{name: "Golang", id: tls.HelloGolang})
+	if !quick {
 		// thorough: reproducible randomized fingerprints as well
-		parrots = append(parrots, hs.RandomizedParrots(12, c.Seed)...)
+		for _, pr := range hs.RandomizedParrots(12, c.Seed) {
+			clients = append(clients, client{name: pr.Name, id: pr.ID})
+		}
 	}
 	scs := scenarios()
 	type job struct {
-		pr   hs.Parrot
+		cl   client
 		sc   scenario
 		seed int64
 	}
 	var jobs []job
-	for pi, pr := range parrots {
+	afterHRRAlways := map[string]bool{"Chrome_120": true, "Safari_16_0": true, "Golang": true, "Firefox_120": true, "Chrome_133": true, "IOS_14": true}
+	for pi, cl := range clients {
 		for si, sc := range scs {
-			// quick tier: every parrot meets every kind at least in one variant, the variants rotate with the seed
-			if c.Tier == "quick" && (pi+si+int(c.Seed))%3 != 0 && sc.variant != "real" && sc.kind != "honest13" && sc.kind != "honest12" {
+			if sc.stale != nil {
 				continue
 			}
-			jobs = append(jobs, job{pr, sc, c.Seed*1000003 + int64(pi)*1009 + int64(si)})
+			// quick tier: every client meets every kind at least in one variant, the variants rotate with the seed
+			if quick && (pi+si+int(c.Seed))%3 != 0 && sc.variant != "real" && sc.kind != "honest13" && sc.kind != "honest12" &&
+				!(afterHRRAlways[cl.name] && strings.HasSuffix(sc.kind, "-afterhrr")) {
+				continue
+			}
+			jobs = append(jobs, job{cl, sc, c.Seed*1000003 + int64(pi)*1009 + int64(si)})
 		}
 	}
-	if c.Tier != "quick" {
+	if !quick {
 		// thorough: several draws of every randomised variant
 		reps := 3
 		base := len(jobs)
 		for r := 1; r < reps; r++ {
 			for _, j := range jobs[:base] {
 				if j.sc.variant == "grease" || j.sc.variant == "offered" {
-					jobs = append(jobs, job{j.pr, j.sc, j.seed + int64(r)*7919})
+					jobs = append(jobs, job{j.cl, j.sc, j.seed + int64(r)*7919})
 				}
 			}
+		}
+	}
+	// re-preset / edit sequences: the stale kinds, the controls, and (thorough) everything else
+	for ci, cl := range sequenceClients(quick) {
+		for si, sc := range scs {
+			if quick && sc.stale == nil && sc.kind != "honest13" && sc.kind != "honest12" && !(sc.kind == "certcomp" && sc.variant == "unoffered") &&
+				!(sc.kind == "alpn13" && sc.variant == "unoffered") {
+				continue
+			}
+			jobs = append(jobs, job{cl, sc, c.Seed*1000003 + 555557 + int64(ci)*1013 + int64(si)})
 		}
 	}
 	out := make([]*outcome, len(jobs))
@@ -357,7 +643,7 @@ func run(c *vh.Ctx) {
 		go func(i int, j job) {
 			defer wg.Done()
 			defer func() { <-sem }()
-			out[i] = runOne(p, j.pr, j.sc, j.seed)
+			out[i] = runOne(p, j.cl, j.sc, j.seed)
 		}(i, j)
 	}
 	wg.Wait()
@@ -369,7 +655,7 @@ func run(c *vh.Ctx) {
 			if o.res.BuildErr != nil {
 				c.Count("build-error")
 				if debug {
-					fmt.Println("BUILD", o.pr.Name, o.res.BuildErr)
+					fmt.Println("BUILD", o.cl.name, o.sc.kind, o.res.BuildErr)
 				}
 			} else {
 				c.Count("not-applicable")
@@ -378,6 +664,7 @@ func run(c *vh.Ctx) {
 		}
 		emit(c, o, synced, debug)
 	}
+	runResumptions(c, p, quick, debug)
 	if debug {
 		ks := vh.SortedKeys(c.Dist)
 		sort.Strings(ks)
